@@ -244,7 +244,7 @@ func (sc *scen) rawSession(in *instance, host string, cl *ident, flow string) *s
 func (sc *scen) expectValid(what string, in *instance, c *call, cl *ident) bool {
 	switch {
 	case !c.accepted:
-		sc.count("valid_rejected:"+what)
+		sc.count("valid_rejected:" + what)
 		return false
 	case !c.v.ok:
 		sc.violation("server-accept/"+c.v.reason+"/valid:"+what, "server reported a peer the oracle cannot justify on a VALID request",
@@ -256,8 +256,8 @@ func (sc *scen) expectValid(what string, in *instance, c *call, cl *ident) bool 
 		sc.count("valid_accepted_as_other_peer")
 		return false
 	}
-	sc.count("valid_accepted:"+what)
-	sc.count("valid_accepted_how:"+c.v.how)
+	sc.count("valid_accepted:" + what)
+	sc.count("valid_accepted_how:" + c.v.how)
 	sc.bump(&sc.valid)
 	return true
 }
@@ -279,7 +279,7 @@ func (sc *scen) violation(sig, msg string, in *instance, a attack, c *call) {
 			"token_ttl": in.tokenTTL.String(), "attack_kind": a.kind, "attack_variant": a.desc,
 			"request_host": c.host, "request_sni": c.sni, "request_authorization": c.authz,
 			"virtual_time_since_case_start": time.Since(sc.t0).String(),
-			"reported_peer": c.peer.String(), "oracle_reason": c.v.reason,
+			"reported_peer":                 c.peer.String(), "oracle_reason": c.v.reason, "oracle_records_for_carried_state": in.explain(c.authz, time.Now()),
 			"response_status": c.status, "response_headers": c.respHdr,
 		})
 }
@@ -303,13 +303,13 @@ func (sc *scen) fire(in *instance, a attack) *call {
 			sc.count("token_accepted_under_other_hostname")
 		}
 		sc.count("srv_mutated_accepted_justified")
-		sc.count("srv_mutated_accepted_justified_by:"+c.v.how)
-		sc.count("srv_accepted_family:"+fam)
+		sc.count("srv_mutated_accepted_justified_by:" + c.v.how)
+		sc.count("srv_accepted_family:" + fam)
 	default:
 		sc.bump(&sc.reject)
 		sc.count("srv_mutated_rejected")
 		sc.count(fmt.Sprintf("srv_rejected_status:%d", c.status))
-		sc.count("srv_rejected_family:"+fam)
+		sc.count("srv_rejected_family:" + fam)
 	}
 	return c
 }
@@ -349,9 +349,14 @@ func editBlobAt(pi int, f func(blob []byte) []byte) paramOp {
 // byte flips in the decoded blob, truncations, extension, emptying, dropping, duplicating. stride(k)
 // thins the flip positions of parameter k (1 = every position).
 func (sc *scen) valueMutations(base []kv, stride func(k string) int, emit func(kind, desc string, op paramOp)) {
+	// quick: one bit per position; thorough: every bit (server family) / three bits (client family, where
+	// each evaluation is a whole multi-round-trip handshake)
 	masks := []byte{0x01}
 	if !sc.r.Quick() {
 		masks = []byte{0x01, 0x02, 0x04, 0x08, 0x10, 0x20, 0x40, 0x80}
+		if strings.HasPrefix(sc.caseID, "cli/") {
+			masks = []byte{0x01, 0x20, 0x80}
+		}
 	}
 	for pi, p := range base {
 		k, v := p.k, p.v
@@ -373,6 +378,9 @@ func (sc *scen) valueMutations(base []kv, stride func(k string) int, emit func(k
 				bits := []int{i % 8}
 				if !sc.r.Quick() {
 					bits = []int{0, 1, 2, 3, 4, 5, 6, 7}
+					if strings.HasPrefix(sc.caseID, "cli/") {
+						bits = []int{0, 7, (i + 3) % 8}
+					}
 				}
 				for _, bit := range bits {
 					emit("flip-blob/"+k, fmt.Sprintf("byte=%d/%d bit=%d", i, len(blob), bit), editBlobAt(pi, func(b []byte) []byte {
@@ -499,10 +507,10 @@ func (sc *scen) hostVariants(in *instance, host string, emit func(kind, desc, ho
 
 func serverFamily(r *run.R, t *testing.T, u *universe) {
 	type cs struct {
-		id               string
-		s, h, c, kt      int
-		flow             string
-		stream           uint64
+		id          string
+		s, h, c, kt int
+		flow        string
+		stream      uint64
 	}
 	var cases []cs
 	n := uint64(0)
@@ -562,7 +570,7 @@ func (sc *scen) capturedAttacks(host, other string, victim, att *ident, flow str
 	S := sc.S
 	base := orderedParams(proofReq.authz[0])
 	tokenHdr := orderedParams(bearerReq.authz[0])
-	if r := sc.r; r.SampleN() < 3 && sc.caseID[len(sc.caseID)-1] == 't' {
+	if r := sc.r; r.SampleN() < 2 {
 		r.Sample(map[string]any{"case": sc.caseID, "valid_proof_request": proofReq.authz[0], "valid_bearer_request": bearerReq.authz[0],
 			"then": "every parameter of both headers mutated, swapped with 7 donor sessions, re-signed by an attacker, blob internals edited"})
 	}
@@ -644,6 +652,10 @@ func (sc *scen) capturedAttacks(host, other string, victim, att *ident, flow str
 				send("proof:swap/"+d.label, pair[0]+"+"+pair[1], setParam(setParam(base, pair[0], a), pair[1], b))
 			}
 		}
+		// the donor's signature over the DONOR's challenge, that challenge echoed as a parameter, our opaque
+		echoed := setParam(setParam(base, "sig", getParam(d.s.proof, "sig")), "challenge-client", getParam(d.s.www, "challenge-client"))
+		send("proof:swap/"+d.label, "sig+echoed-challenge-client", echoed)
+		send("proof:swap/"+d.label, "sig+echoed-challenge-client+public-key", setParam(echoed, "public-key", b64(d.s.cl.pubBytes)))
 		send("proof:swap/"+d.label, "whole-proof-request", d.s.proof)
 		send("bearer:swap/"+d.label, "bearer", []kv{{"bearer", d.s.bearer}})
 		// unused fresh challenge of the donor combined with our signature
@@ -977,6 +989,9 @@ func TestC19(t *testing.T) {
 		t.Fatalf("key generation: %v", err)
 	}
 	selfTest(r, u)
+	r.Extra("universe", map[string]any{"server_key_types": len(u.servers), "instances_per_case": "S (attacked), O (other key, other secret, implementation-drawn), T (same key as S, other secret), E (attacker's own real server, client family)",
+		"hostnames": u.hosts, "clients": 3, "client_key_types": ktNames, "flows": []string{flowClient, flowServer},
+		"tls_mode": "odd server index: TLS mode with fabricated ConnectionState.ServerName; even: NoTLS + ValidHostnameFn"})
 	race := os.Getenv("VERIF_RACE") == "1"
 	if !race {
 		serverFamily(r, t, u)
